@@ -370,13 +370,20 @@ def subdivide_loop(vertices, faces, iterations=None):
             # boundary vertices from boundary edges
             vrt_bound_mask = np.zeros(len(vertices), dtype=bool)
             vrt_bound_mask[np.unique(edges[unique][~edge_inter_mask])] = True
-            # one boundary vertex has two neighbor boundary vertices (set
-            # others as -1)
-            boundary_neighbors = neighbors[vrt_bound_mask]
-            boundary_neighbors[~vrt_bound_mask[neighbors[vrt_bound_mask]]] = -1
-
+            # one boundary vertex has two neighbor boundary vertices: the
+            # ones it is connected to by a boundary edge. An interior edge
+            # can also connect two boundary vertices so collect the
+            # neighbors from the boundary edges rather than from the
+            # vertex neighbors which are on the boundary
+            edge_bnd = edges[unique][edge_bound_mask]
+            bound_sum = np.zeros_like(vertices)
+            bound_count = np.zeros(len(vertices))
+            for a, b in (edge_bnd.T, edge_bnd.T[::-1]):
+                np.add.at(bound_sum, a, vertices[b])
+                np.add.at(bound_count, a, 1.0)
+            # 3:1 ratio of the vertex and the mean of its boundary neighbors
             even[vrt_bound_mask] = (
-                vertices_[boundary_neighbors].sum(axis=1) / 8.0
+                bound_sum[vrt_bound_mask] / (4.0 * bound_count[vrt_bound_mask, None])
                 + (3.0 / 4.0) * vertices[vrt_bound_mask]
             )
 
